@@ -7,7 +7,7 @@ From Coq Require Import NArith List.
 Import ListNotations.
 From CXV Require Import Gen.Blocks Parse.BlocksSM Parse.BlocksSpec Parse.BlocksThms.
 From CXV Require Gen.PinsC03.
-From CXV Require Import Gen.ParserTables Parse.Balanced Parse.Specs Parse.ClassEnum.
+From CXV Require Import Gen.ParserTables Parse.Balanced Parse.Specs Parse.ClassEnum Parse.CtorDtor.
 From CXV Require Import Gen.TokTy Parse.Declarator Parse.DeclSpec Parse.DeclThms Parse.BaseClause Parse.EnumList Parse.Specs Parse.Init Parse.Members Parse.MethodTail.
 Open Scope N_scope.
 
@@ -110,7 +110,33 @@ Theorem other_declarations_untouched : forall key m template is_typedef is_frien
   class_enum key m template is_typedef is_friend (s :: rest) = DOk (CENone, s :: rest).
 Proof. exact otherwise_untouched. Qed.
 
-(* the functions the hand-written models above mirror (_parse_class_decl, _parse_class_decl_base_clause, _maybe_parse_class_enum_decl, _parse_method_end, _discard_ctor_initializer, _parse_field and _parse_bitfield) are, token for
+(* Constructors and destructors are recognised by comparing the last segment
+   of the name in front of the '(' with the name of the class it belongs to:
+   inside class C, `C(` is a constructor and `~C(` a destructor whatever
+   qualifies the name, and every other name is an ordinary member; outside a
+   class `A::B::B(` / `A::B::~B(` are the definitions and an unqualified name
+   never is; a friend declaration is compared with the befriended class; a
+   decorated type (pointer, reference) in front of the '(' never is one. *)
+Theorem constructor_in_class : forall c pre, c <> 0 -> ctor_dtor true false true (named c) (pre ++ [named c]) = CDCtor.
+Proof. exact member_ctor. Qed.
+Theorem destructor_in_class : forall c pre, c <> 0 -> ctor_dtor true false true (named c) (pre ++ [tilded c]) = CDDtor.
+Proof. exact member_dtor. Qed.
+Theorem other_member_is_neither : forall c pre (t : bool) r, (t, r) <> (false, c) -> (t = true -> r <> c) ->
+  ctor_dtor true false true (named c) (pre ++ [Some (t, r)]) = CDNone.
+Proof. exact member_other. Qed.
+Theorem constructor_out_of_class : forall c pre, c <> 0 -> ctor_dtor false false true None (pre ++ [named c; named c]) = CDCtor.
+Proof. exact out_of_class_ctor. Qed.
+Theorem destructor_out_of_class : forall c pre, c <> 0 -> ctor_dtor false false true None (pre ++ [named c; tilded c]) = CDDtor.
+Proof. exact out_of_class_dtor. Qed.
+Theorem unqualified_name_outside_class_is_neither : forall x cls is_friend, ctor_dtor false is_friend true cls [x] = CDNone.
+Proof. exact unqualified_outside_class. Qed.
+Theorem decorated_type_is_neither : forall in_class is_friend cls dsegs, ctor_dtor in_class is_friend false cls dsegs = CDNone.
+Proof. exact decorated_type_never. Qed.
+Theorem friend_constructor_compares_with_befriended_class : forall h c pre, c <> 0 ->
+  ctor_dtor true true true (named h) (pre ++ [named c; named c]) = CDCtor.
+Proof. exact friend_ctor. Qed.
+
+(* the functions the hand-written models above mirror (_parse_class_decl, _parse_class_decl_base_clause, _maybe_parse_class_enum_decl, _parse_decl, _parse_method_end, _discard_ctor_initializer, _parse_field and _parse_bitfield) are, token for
    token of their syntax trees, the ones the models were written against: the
    translator recomputes the digests from the live code and produces Gen/PinsC03.v
    only when they match *)
@@ -146,4 +172,12 @@ Print Assumptions forward_declaration_rules.
 Print Assumptions definition_dispatched_by_class_key.
 Print Assumptions definition_rules_enforced.
 Print Assumptions other_declarations_untouched.
+Print Assumptions constructor_in_class.
+Print Assumptions destructor_in_class.
+Print Assumptions other_member_is_neither.
+Print Assumptions constructor_out_of_class.
+Print Assumptions destructor_out_of_class.
+Print Assumptions unqualified_name_outside_class_is_neither.
+Print Assumptions decorated_type_is_neither.
+Print Assumptions friend_constructor_compares_with_befriended_class.
 Print Assumptions modelled_functions_are_the_pinned_ones.
